@@ -134,7 +134,7 @@ def judge_residue(sysm, problems):
         res = A.residue(app)
         for k, v in res.items():
             problems.append(("residue:%s:%s" % (who, k), {"what": v}))
-    tasks = vclock.pending_tasks()
+    tasks = [x for x in vclock.pending_tasks() if x[2] is not getattr(sysm, "background_task", None)]
     if tasks:
         problems.append(("residue:timer:%s" % ",".join(sorted(set(type(t).__name__ for (_, _, t) in tasks))),
                          {"tasks": [(w, type(t).__name__, getattr(t, "state", None)) for (w, n, t) in tasks]}))
